@@ -1055,6 +1055,18 @@ func steerServeAfterFailedStart(workers int, emit func(string)) {
 	e.s.SetLogger(svc.NopLogger{})
 	e.s.SetWorkerCount(workers)
 	e.s.Handle("r.$id", res.Call("do", func(r res.CallRequest) { r.OK(nil) }))
+	// first a ListenAndServe that cannot connect (nothing listens on port 1) ...
+	lsDone := make(chan error, 1)
+	go func() { lsDone <- e.s.ListenAndServe("nats://127.0.0.1:1") }()
+	select {
+	case <-lsDone:
+	case <-time.After(10 * time.Second):
+		e.rec.add("h.serve.hung", "", 0)
+		atomic.StoreInt32(&poolHung, 1)
+		flushNotes(e.rec, emit)
+		return
+	}
+	// ... then a Serve whose listener validation fails
 	e.s.AddListener("late.$id", func(*res.Event) {})
 	failed := make(chan error, 1)
 	go func() { failed <- e.s.Serve(recconn.New()) }()
@@ -1062,6 +1074,11 @@ func steerServeAfterFailedStart(workers int, emit func(string)) {
 	case err := <-failed:
 		if err == nil {
 			return // the validation did not fail: nothing to learn here
+		}
+		if strings.Contains(err.Error(), "not stopped") {
+			e.rec.add("h.serve.refused.stopped", "", 0)
+			flushNotes(e.rec, emit)
+			return
 		}
 	case <-time.After(3 * time.Second):
 		e.rec.add("h.serve.hung", "", 0)
